@@ -53,6 +53,7 @@ fn refusal(how: u8) -> io::Result<usize> {
         1 => Err(io::Error::from(io::ErrorKind::Other)),
         2 => Err(io::Error::from(io::ErrorKind::Interrupted)),
         3 => Err(io::Error::from(io::ErrorKind::WouldBlock)),
+        4 => Err(io::Error::from(io::ErrorKind::UnexpectedEof)),
         _ => Err(io::Error::from(io::ErrorKind::BrokenPipe)),
     }
 }
@@ -273,7 +274,7 @@ fn one<C: CellType>(code: &str, t: &mut [Tally; 3], w: &str) {
             t[2].check(ev == fev, || format!("{} program {:?}, no input source: events {:?}, canonical {:?}", w, code, ev, fev));
             // refusals / failures that are errors of various kinds (a retrying helper must not be used)
             if bytes.len() <= 4 {
-                for how in 1..=4u8 {
+                for how in 1..=5u8 {
                     let (fev, _, _) = canon(bytes, input, C::BITS, 300_000, 1, false);
                     let (ev, _, _) = real2::<C>(code, input, None, 1, how, false, usize::MAX, 0);
                     t[2].check(ev == fev, || format!("{} program {:?} input {:?}, output byte 1 refused with error kind #{}: events {:?}, canonical {:?}", w, code, input, how, ev, fev));
